@@ -527,3 +527,16 @@ pub fn replay(ctx: &RunCtx, case: &Value) -> Result<Option<Fail>, String> {
         Run::Ok { .. } => None,
     })
 }
+
+/// fuzz entry: bytes -> operation history (same decoder as the proptest tier), byte 0 picks the slot layout
+pub fn fuzz_one(data: &[u8]) -> Option<(Value, Fail)> {
+    let ops = valid_prefix(&decode_ops(data));
+    let wide = data.first().map_or(false, |b| b % 2 == 1);
+    match execute_layout(&ops, true, wide) {
+        Run::Fail(_, f) => {
+            let v = violation(&ops, Fail { kind: if wide { format!("{}#wide", f.kind) } else { f.kind.clone() }, ..f });
+            Some((v.case, v.fail))
+        }
+        _ => None,
+    }
+}
